@@ -17,7 +17,7 @@ const ID = "C03"
 func TestMain(m *testing.M) { rep.Main(m, ID) }
 
 func opts() sim.GenOpts {
-	o := sim.GenOpts{MaxSteps: 7, Retries: true, Preconds: true, Handlers: true, Redirects: true}
+	o := sim.GenOpts{MaxSteps: 7, Retries: true, Preconds: true, Handlers: true, Redirects: true, DevFull: true}
 	if rep.Thorough() {
 		o.MaxSteps = 12
 	}
@@ -133,7 +133,7 @@ func TestReplay(t *testing.T) {
 		t.Fatal(err)
 	}
 	if cf.Sub == "dry" {
-		var dc sim.Case
+		var dc DryCase
 		if err := json.Unmarshal(cf.Case, &dc); err != nil {
 			t.Fatal(err)
 		}
